@@ -63,3 +63,7 @@ package influx
 //@     requires (len(arg1) == 1 && arg1[0] == 92 && len(s) > 0 && ch != 92) ==> (ch != 32 && ch != 44 && ch != 61)
 //@   loop 1
 //@     invariant 0 <= n && n < len(s) && s[n] == 92 && (forall k int :: 0 <= k && k < n ==> s[k] != 92)
+
+//@ func GetNameWithVersion
+//@   trusted builds the versioned measurement name in a fresh buffer
+//@   assigns nothing
